@@ -68,19 +68,23 @@ func NewContext(opts py.ContextOpts) py.Context {
 	return ctx
 }
 
-// ModuleInit digests a ModuleImpl, compiling and marshalling as needed, creating a new Module instance in this Context.
-func (ctx *context) ModuleInit(impl *py.ModuleImpl) (*py.Module, error) {
-	err := ctx.pushBusy()
-	defer ctx.popBusy()
-	if err != nil {
-		return nil, err
-	}
+// implCodeMu guards the lazy compilation of ModuleImpl.Code: a registered
+// ModuleImpl is shared by all contexts of the process, which may import it
+// from different goroutines at the same time.
+var implCodeMu sync.Mutex
+
+// implCode returns the code object of impl, compiling (CodeSrc) or
+// unmarshalling (CodeBuf) it on first use.
+func implCode(impl *py.ModuleImpl) (*py.Code, error) {
+	implCodeMu.Lock()
+	defer implCodeMu.Unlock()
 
 	if impl.Code == nil && len(impl.CodeSrc) > 0 {
-		impl.Code, err = py.Compile(string(impl.CodeSrc), impl.Info.FileDesc, py.ExecMode, 0, true)
+		code, err := py.Compile(string(impl.CodeSrc), impl.Info.FileDesc, py.ExecMode, 0, true)
 		if err != nil {
 			return nil, err
 		}
+		impl.Code = code
 	}
 
 	if impl.Code == nil && len(impl.CodeBuf) > 0 {
@@ -89,10 +93,27 @@ func (ctx *context) ModuleInit(impl *py.ModuleImpl) (*py.Module, error) {
 		if err != nil {
 			return nil, err
 		}
-		impl.Code, _ = obj.(*py.Code)
-		if impl.Code == nil {
+		code, _ := obj.(*py.Code)
+		if code == nil {
 			return nil, py.ExceptionNewf(py.AssertionError, "Embedded code did not produce a py.Code object")
 		}
+		impl.Code = code
+	}
+
+	return impl.Code, nil
+}
+
+// ModuleInit digests a ModuleImpl, compiling and marshalling as needed, creating a new Module instance in this Context.
+func (ctx *context) ModuleInit(impl *py.ModuleImpl) (*py.Module, error) {
+	err := ctx.pushBusy()
+	defer ctx.popBusy()
+	if err != nil {
+		return nil, err
+	}
+
+	code, err := implCode(impl)
+	if err != nil {
+		return nil, err
 	}
 
 	module, err := ctx.Store().NewModule(ctx, impl)
@@ -100,8 +121,8 @@ func (ctx *context) ModuleInit(impl *py.ModuleImpl) (*py.Module, error) {
 		return nil, err
 	}
 
-	if impl.Code != nil {
-		_, err = ctx.RunCode(impl.Code, module.Globals, module.Globals, nil)
+	if code != nil {
+		_, err = ctx.RunCode(code, module.Globals, module.Globals, nil)
 		if err != nil {
 			return nil, err
 		}
